@@ -10,7 +10,7 @@ META = {
     "rule": "X1 Resolver::values_names_in_scope (what completion offers) and Resolver::resolve_name (what a name resolves to) agree: same "
             "scope order, same ModuleDefId -> ResolveResult table, first occurrence wins; X2 the members offered after `module.` are "
             "filtered on visibility; X3 the replacement range is the identifier/keyword token under the cursor or the empty range at the "
-            "cursor. One obligation per table row / clause. X4 common fields are the intersection; X5/X6 imports are offered under the name they bind; X7 the visibility a constructor is declared with depends on the `opaque` modifier of its type. X8/X9 = C11 H6/H7.",
+            "cursor. One obligation per table row / clause. X4 common fields are the intersection; X5/X6 imports are offered under the name they bind; X7 the visibility a constructor is declared with depends on the `opaque` modifier of its type. X8/X9 = C11 H6/H7. X11 = C05 S7/S8 (an imported item is bound as a value only by a value import, as a type only by `type X`). X10 every constructor that becomes a variant contributes its field set to the common-fields intersection.",
     "explanation": "If the enumeration offered by completion and the lookup used by go-to-definition are two implementations of one "
                    "scope walk, then every offered name resolves and nothing resolvable is left out only if the two agree on order and "
                    "on the kinds of module items they treat as values. That agreement is decided from the MIR; the exact set for every "
@@ -152,6 +152,10 @@ def run(F, res, tier):
     # visibility, an id or an order changed leaves the dependents with the old answer
     from rules import c11 as _c11
     _c11.value_equality_rules(F, res, rule="X8", rule2="X9")
+    every_constructor_is_in_the_intersection(F, res)
+    # the value names offered at an expression position are ModuleScope.values: a type import must not bind a constructor there
+    from rules import c05 as _c05
+    _c05.namespaces(F, res, rule7="X11", rule8="X11")
 
 
 def extra_rules(F, res):
@@ -355,3 +359,21 @@ def opaque_constructors_private(F, res, rule="X7"):
            ok, where=where,
            how="constructor visibility is computed from AdtData fields %s; fields filled from an accessor that looks for `opaque`: %s; such "
                "accessors in the AST: %s" % (sorted(feeds) if feeds is not None else None, from_opaque, sorted(readers)))
+
+
+def every_constructor_is_in_the_intersection(F, res, rule="X10"):
+    """X10: the fields offered after `value.` are AdtData::common_fields, the intersection of the labelled-field sets collected
+    while the constructors are lowered (X4: it is an intersection). It has to range over *all* constructors: a record accessor
+    exists only for a field every constructor has. In the loop that lowers the constructors (helpers inlined), an iteration
+    that allocates a variant also pushes that variant's field set - `Stray`, written without a field list, contributes the
+    empty set and so empties the intersection; if it contributed nothing, `pet.name` would be offered although Stray has none."""
+    from lib import inline as IL
+    f0 = F.fn("ide::def::lower::LowerCtx::lower_custom_type")
+    f = IL.inlined(F, f0, want=lambda p: p.startswith("ide::def::lower::LowerCtx::lower_constructor"), depth=3)
+    allocs = [b for b, t in f.calls() if (callee(t) or "").endswith("LowerCtx::alloc_variant")]
+    pushes = [b for b, t in f.calls() if FL.short(callee(t) or callee_def(t) or "").endswith("Vec::push") and
+              "HashMap<smol_str::SmolStr" in ((t.get("fn") or {}).get("full") or "") + " ".join((t.get("fn") or {}).get("targs") or [])]
+    ways = FL.every_iteration_passes(f, pushes, must_visit=allocs) if allocs and pushes else [("none", "none")]
+    res.ob(rule, "common-fields/every-variant-contributes", "every constructor that becomes a variant contributes its set of labelled fields to the "
+           "intersection (a constructor without a field list contributes the empty set)", bool(allocs) and bool(pushes) and not ways, where=f0.loc(),
+           how="alloc_variant sites %d, pushes of a field set %d, iterations that allocate a variant without pushing: %d" % (len(allocs), len(pushes), len(ways)))
